@@ -1,9 +1,10 @@
 From Coq Require Import Extraction ExtrOcamlBasic.
 From Common Require Import Bytes Drv.
+From GrandpaPayload Require Import Payload.
 From C18 Require Import Model.
 Extraction "model.ml" drv_b2n drv_n2b drv_z_of_n drv_n_of_z drv_nat_of_n drv_n_of_nat
   mkVote mkAuth mkCommit entries tree_chain threshold
   handle_commit handle_commit_prefix verify_commit verify_commit_prefix
   get_equivocatory_voters supporter equivocator counted spec_count supermajority at_threshold
   prop_holds returns_nil fin_calls vote_eqb
-  mkFaults handle_commit_f freturns_nil tree_chain_h entry_fault strip.
+  mkFaults handle_commit_f freturns_nil tree_chain_h entry_fault strip vote_payload.
